@@ -1,5 +1,6 @@
 import Gen.Enfold
 import Gen.Lemmas
+import Model.Backends
 /-!
 # The translated methods of `EnfoldCache` are the model's `Enfold.step`
 
@@ -13,16 +14,16 @@ namespace Vakt.GenEquiv
 open Vakt PyVal Vakt.PyPrim Vakt.GenEnfold Vakt.Store Vakt.Enfold
 
 /-- the world before a call: nothing raised, the backend not yet called -/
-def W0 (cfg : Cfg) (s : EState) : V := .eworld cfg s false Option.none
+def W0 (cfg : Cfg) (s : EState) : V := .eworld cfg s false 0 Option.none
 
 /-- how a method call ends, against the model's (state, output, backend touched) -/
 def EOutcome (m : M) (cfg : Cfg) (r : EState × Out × Bool) : Prop :=
   match r.2.1 with
-  | .done => m = .ok (.seq [.py .none, .eworld cfg r.1 r.2.2 Option.none])
-  | .pol Option.none => m = .ok (.seq [.py .none, .eworld cfg r.1 r.2.2 Option.none])
-  | .pol (some p) => ∃ u, m = .ok (.seq [.polv u p true, .eworld cfg r.1 r.2.2 Option.none])
-  | .pols l => m = .ok (.seq [.pols l, .eworld cfg r.1 r.2.2 Option.none])
-  | e => m = .ok (.eworld cfg r.1 r.2.2 (some e))
+  | .done => m = .ok (.seq [.py .none, .eworld cfg r.1 r.2.2 0 Option.none])
+  | .pol Option.none => m = .ok (.seq [.py .none, .eworld cfg r.1 r.2.2 0 Option.none])
+  | .pol (some p) => ∃ u, m = .ok (.seq [.polv u p true, .eworld cfg r.1 r.2.2 0 Option.none])
+  | .pols l => m = .ok (.seq [.pols l, .eworld cfg r.1 r.2.2 0 Option.none])
+  | e => m = .ok (.eworld cfg r.1 r.2.2 0 (some e))
 
 theorem gen_enfold_add (cfg : Cfg) (s : EState) (self : V) (u : Uid) (p : Pol) (ok : Bool) :
     EOutcome (add_EnfoldCache self (.polv u p ok) (W0 cfg s)) cfg (Enfold.step cfg s (.add u p ok)) := by
@@ -89,10 +90,10 @@ def popBody : V → List V → (List V → M) → (List V → M) → M := fun l2
 def polsV (l : St) : List V := l.map fun (x : Uid × Pol) => V.polv x.1 x.2 true
 
 theorem pop_loop (cfg : Cfg) (b : St) (all : St) : ∀ (c : St),
-    loopS (polsV all) popBody [.eworld cfg ⟨c, b⟩ true Option.none] (fun r2 => pairM cNone (pure (stGet r2 0))) =
+    loopS (polsV all) popBody [.eworld cfg ⟨c, b⟩ true 0 Option.none] (fun r2 => pairM cNone (pure (stGet r2 0))) =
       (match (feed c all).2 with
-       | .done => .ok (.seq [.py .none, .eworld cfg ⟨(feed c all).1, b⟩ true Option.none])
-       | e => .ok (.eworld cfg ⟨(feed c all).1, b⟩ true (some e))) := by
+       | .done => .ok (.seq [.py .none, .eworld cfg ⟨(feed c all).1, b⟩ true 0 Option.none])
+       | e => .ok (.eworld cfg ⟨(feed c all).1, b⟩ true 0 (some e))) := by
   induction all with
   | nil => intro c; simp [polsV, loopS, feed, pairM, stGet, cNone]
   | cons x rest ih =>
@@ -118,8 +119,8 @@ theorem feed_out (all : St) : ∀ c : St, (feed c all).2 = .done ∨ (feed c all
     | none => exact ih _
 
 theorem retrieve_call (cfg : Cfg) (s : EState) (batch : Nat) (k : V → V → M) :
-    stCallM "storage" "retrieve_all" [.ok (.py (.int (batch : Int)))] (.ok (.eworld cfg s false Option.none)) k =
-      k (.pols (retrieveAll (listing cfg s.backend) batch)) (.eworld cfg ⟨s.cache, s.backend⟩ true Option.none) := by
+    stCallM "storage" "retrieve_all" [.ok (.py (.int (batch : Int)))] (.ok (.eworld cfg s false 0 Option.none)) k =
+      k (.pols (retrieveAll (listing cfg s.backend) batch)) (.eworld cfg ⟨s.cache, s.backend⟩ true 0 Option.none) := by
   have hb : ¬ ((batch : Int) < 0) := by omega
   simp [stCallM, evalArgs, storeOpOf, Store.step, hb]
 
@@ -130,10 +131,63 @@ theorem gen_enfold_populate (cfg : Cfg) (s : EState) (self : V) (batch : Nat) :
   rw [retrieve_call]
   simp only [pyForS, bindM_ok, items]
   show EOutcome (loopS (polsV (retrieveAll (listing cfg s.backend) batch)) popBody
-    [.eworld cfg ⟨s.cache, s.backend⟩ true Option.none] (fun r2 => pairM cNone (pure (stGet r2 0)))) cfg _
+    [.eworld cfg ⟨s.cache, s.backend⟩ true 0 Option.none] (fun r2 => pairM cNone (pure (stGet r2 0)))) cfg _
   rw [pop_loop]
   unfold EOutcome Enfold.step
   simp only []
   rcases feed_out (retrieveAll (listing cfg s.backend) batch) s.cache with h | h <;> simp only [h]
+
+/-! ### `ObservableMutationStorage` -/
+
+/-- the wrapped storage as the abstract store (no client calls recorded) -/
+def absStep (cfg : Cfg) : St → Op → St × Out × List Backends.Call := fun s op => ((Store.step cfg s op).1, (Store.step cfg s op).2, [])
+
+/-- how a method of the observable wrapper ends, against `obsStep`: the wrapped store, the number of notifications, the value -/
+def OOutcome (m : M) (cfg : Cfg) (r : Backends.Obs St × Out × List Backends.Call) : Prop :=
+  match r.2.1 with
+  | .done => m = .ok (.seq [.py .none, .eworld cfg ⟨[], r.1.inner⟩ true r.1.notified Option.none])
+  | .pol Option.none => m = .ok (.seq [.py .none, .eworld cfg ⟨[], r.1.inner⟩ true r.1.notified Option.none])
+  | .pol (some p) => ∃ u, m = .ok (.seq [.polv u p true, .eworld cfg ⟨[], r.1.inner⟩ true r.1.notified Option.none])
+  | .pols l => m = .ok (.seq [.pols l, .eworld cfg ⟨[], r.1.inner⟩ true r.1.notified Option.none])
+  | e => m = .ok (.eworld cfg ⟨[], r.1.inner⟩ true r.1.notified (some e))
+
+def OW (cfg : Cfg) (s : St) (n : Nat) : V := .eworld cfg ⟨[], s⟩ false n Option.none
+
+theorem gen_observable_add (cfg : Cfg) (s : St) (n : Nat) (self : V) (u : Uid) (p : Pol) (ok : Bool) :
+    OOutcome (add_Observable self (.polv u p ok) (OW cfg s n)) cfg
+      (Backends.obsStep (absStep cfg) ⟨s, n⟩ (.add u p ok)) := by
+  unfold add_Observable OW OOutcome Backends.obsStep absStep
+  simp only [pure_ok, stCallM, bindM_ok, evalArgs, storeOpOf, Store.step, pairM, notifyM, storage_eq, if_true, Backends.isMutation]
+  cases ok <;> cases hb : lookup u s <;> simp [hb]
+
+theorem gen_observable_update (cfg : Cfg) (s : St) (n : Nat) (self : V) (u : Uid) (p : Pol) (ok : Bool) :
+    OOutcome (update_Observable self (.polv u p ok) (OW cfg s n)) cfg
+      (Backends.obsStep (absStep cfg) ⟨s, n⟩ (.update u p ok)) := by
+  unfold update_Observable OW OOutcome Backends.obsStep absStep
+  simp only [pure_ok, stCallM, bindM_ok, evalArgs, storeOpOf, Store.step, pairM, notifyM, storage_eq, if_true, Backends.isMutation]
+  cases ok <;> cases he : cfg.eagerConvert <;> cases hb : lookup u s <;> simp [hb, he]
+
+theorem gen_observable_delete (cfg : Cfg) (s : St) (n : Nat) (self : V) (u : Uid) :
+    OOutcome (delete_Observable self (.py (.str u)) (OW cfg s n)) cfg
+      (Backends.obsStep (absStep cfg) ⟨s, n⟩ (.delete u)) := by
+  unfold delete_Observable OW OOutcome Backends.obsStep absStep
+  simp [stCallM, evalArgs, storeOpOf, Store.step, pairM, notifyM, Backends.isMutation]
+
+theorem gen_observable_get (cfg : Cfg) (s : St) (n : Nat) (self : V) (u : Uid) :
+    OOutcome (get_Observable self (.py (.str u)) (OW cfg s n)) cfg
+      (Backends.obsStep (absStep cfg) ⟨s, n⟩ (.get u)) := by
+  unfold get_Observable OW OOutcome Backends.obsStep absStep
+  simp only [pure_ok, stCallM, bindM_ok, evalArgs, storeOpOf, Store.step, pairM, storage_eq, if_true, Backends.isMutation]
+  cases hb : lookup u s <;> simp [hb, uidArg]
+
+theorem gen_observable_get_all (cfg : Cfg) (s : St) (n : Nat) (self : V) (l o : Int) :
+    OOutcome (get_all_Observable self (.py (.int l)) (.py (.int o)) (OW cfg s n)) cfg
+      (Backends.obsStep (absStep cfg) ⟨s, n⟩ (.getAll l o)) := by
+  unfold get_all_Observable OW OOutcome Backends.obsStep absStep
+  simp only [pure_ok, stCallM, bindM_ok, evalArgs, storeOpOf, Store.step, pairM, storage_eq, if_true, Backends.isMutation]
+  by_cases hneg : (l < 0 || o < 0) = true
+  · simp [hneg]
+  · have hneg' : (l < 0 || o < 0) = false := by simpa using hneg
+    simp [hneg']
 
 end Vakt.GenEquiv
